@@ -1,3 +1,323 @@
-/-! # C17 — property theorems (to be written) -/
+import BddVerif.Lemmas.Transfer
+/-!
+# C17 — variable renaming and transfer keep the function or refuse
+
+All statements are about the executable model `Model/Rename.lean` (tied to the Rust code by the
+correspondence stream `C17.*`), for every valid diagram `b` (`WFo`: terminals exact, variables in range,
+links in range, variables strictly increasing along links — index order NOT required), every map and
+every pair of name lists. The denotation is `evalArr`, the evaluator the driver uses for truth tables.
+
+Each operation either returns `ok r` where `r` is `Kept` (valid, the stated variable count, the original
+function under the renaming, reduced if the input was, same layout), or refuses (`panic`, resp. `err` =
+`None` for `transfer_from`); which of the two happens is characterised exactly.
+-/
 namespace B.Props.C17
+open B B.Drive B.Ren
+
+/-- `r` is a valid diagram over `m` variables that denotes `v ↦ b (v ∘ g)`; it is reduced if `b` was and
+    has the very same links (so the post-order test of `isCanon` gives the same answer) -/
+structure Kept (b r : Arr) (m : Nat) (g : Nat → Nat) : Prop where
+  valid : WFo r m
+  count : numVars r = m
+  den : ∀ v, evalArr r v = evalArr b (fun x => v (g x))
+  red : Red b (numVars b) → Red r m
+  layout : SameLinks r b
+
+theorem kept_of_retarget {b : Arr} (m : Nat) (g : Nat → Nat) (hb : WFo b (numVars b))
+    (hlt : ∀ x ∈ supportSet b, g x < m)
+    (hmono : ∀ x ∈ supportSet b, ∀ y ∈ supportSet b, x < y → g x < g y) :
+    Kept b (mapVars g (setTerm m b)) m g := by
+  obtain ⟨h1, h2, h3, h4, h5⟩ := retarget_spec m g hb hlt hmono
+  exact ⟨h1, h2, h3, h4, h5⟩
+
+/-- an order-preserving renaming of a canonical (reduced + high-first post-order) array is canonical:
+    reducedness is kept and the post-order test sees the same links -/
+theorem kept_canonical_structure {b r : Arr} {m : Nat} {g : Nat → Nat} (h : Kept b r m g)
+    (hred : Red b (numVars b)) :
+    Red r m ∧ ∀ fuel p st, postOrder r fuel p st = postOrder b fuel p st :=
+  ⟨h.red hred, postOrder_sameLinks h.layout⟩
+
+/-! ## `set_num_vars` -/
+
+/-- `set_num_vars(m)` succeeds exactly when every used variable is below `m`; then the result is valid
+    over `m` variables and denotes the same function; otherwise it panics. -/
+theorem set_num_vars_safe (b : Arr) (m : Nat) (hb : WFo b (numVars b)) :
+    ((∀ x ∈ supportSet b, x < m) →
+      setNumVars b m = .ok (setTerm m b) ∧ Kept b (setTerm m b) m (fun x => x)) ∧
+    (¬ (∀ x ∈ supportSet b, x < m) → ∃ msg, setNumVars b m = .panic msg) := by
+  have hsz : b.size ≠ 0 := by have := hb.size_pos; omega
+  have hany : (b.toList.drop 2).any (fun nd => decide (m ≤ nd.var)) = true ↔ ¬ ∀ x ∈ supportSet b, x < m := by
+    rw [List.any_eq_true]
+    constructor
+    · rintro ⟨nd, hnd, hle⟩ hall
+      have := hall nd.var ((mem_supportSet' b _).mpr ⟨nd, hnd, rfl⟩)
+      simp at hle; omega
+    · intro h
+      apply Classical.byContradiction
+      intro hno
+      apply h
+      intro x hx
+      obtain ⟨nd, hnd, rfl⟩ := (mem_supportSet' b x).mp hx
+      rcases Nat.lt_or_ge nd.var m with h' | h'
+      · exact h'
+      · exact absurd ⟨nd, hnd, by simpa using h'⟩ hno
+  constructor
+  · intro hall
+    have : ¬ (b.toList.drop 2).any (fun nd => decide (m ≤ nd.var)) = true := fun h => hany.mp h hall
+    refine ⟨by simp only [setNumVars, hsz, this, if_false, Bool.false_eq_true], ?_⟩
+    have := kept_of_retarget m (fun x => x) hb hall (fun x _ y _ h => h)
+    rwa [mapVars_id] at this
+  · intro hnot
+    exact ⟨_, by simp only [setNumVars, hsz, hany.mpr hnot, if_true, if_false] <;> rfl⟩
+
+/-! ## `rename_variables` -/
+
+/-- the renaming is admissible: on the support it stays in range and is strictly increasing -/
+def Admissible (b : Arr) (g : Nat → Nat) : Prop :=
+  (∀ x ∈ supportSet b, g x < numVars b) ∧ (∀ x ∈ supportSet b, ∀ y ∈ supportSet b, x < y → g x < g y)
+
+/-- `rename_variables(π)`: if `π` (identity outside its keys) is admissible on the support the result is
+    `ok r` with `r` valid and `r(v) = b(v ∘ π)`; otherwise the call panics. Keys outside the support —
+    the key `num_vars` included — are irrelevant. In particular never `ok` with an invalid diagram. -/
+theorem rename_variables_safe (b : Arr) (π : VarMap) (hb : WFo b (numVars b)) :
+    (Admissible b (applyMap π) → renameVariables b π = .ok (mapVars (applyMap π) b) ∧
+      Kept b (mapVars (applyMap π) b) (numVars b) (applyMap π)) ∧
+    (¬ Admissible b (applyMap π) → ∃ msg, renameVariables b π = .panic msg) := by
+  have hall : ((supportSet b).map (applyMap π)).all (fun x => decide (x < numVars b)) = true ↔
+      ∀ x ∈ supportSet b, applyMap π x < numVars b := by
+    simp [List.all_eq_true]
+  have hchain : chainLt ((supportSet b).map (applyMap π)) = true ↔
+      ∀ x ∈ supportSet b, ∀ y ∈ supportSet b, x < y → applyMap π x < applyMap π y := by
+    rw [chainLt_iff]
+    exact ⟨mono_of_sorted_map _ _ (sorted_supportSet b), sorted_map_of_mono _ _ (sorted_supportSet b)⟩
+  constructor
+  · rintro ⟨h1, h2⟩
+    have hk := kept_of_retarget (numVars b) (applyMap π) hb h1 h2
+    rw [setTerm_self hb] at hk
+    by_cases hemp : (supportSet b).isEmpty = true
+    · have : mapVars (applyMap π) b = b :=
+        mapVars_small _ b ((supportSet_eq_nil b).mp (List.isEmpty_iff.mp hemp))
+      refine ⟨?_, hk⟩
+      rw [this]
+      simp only [renameVariables, hemp, if_true]
+    · refine ⟨?_, hk⟩
+      simp only [renameVariables, hemp, hall.mpr h1, hchain.mpr h2]
+      rfl
+  · intro hnot
+    have hemp : ¬ (supportSet b).isEmpty = true := by
+      intro h
+      apply hnot
+      unfold Admissible
+      rw [List.isEmpty_iff.mp h]
+      exact ⟨fun x hx => (by cases hx), fun x hx => (by cases hx)⟩
+    by_cases h1 : ∀ x ∈ supportSet b, applyMap π x < numVars b
+    · have h2 : ¬ chainLt ((supportSet b).map (applyMap π)) = true := fun h => hnot ⟨h1, hchain.mp h⟩
+      exact ⟨_, by simp only [renameVariables, hemp, hall.mpr h1, h2]; rfl⟩
+    · have h1' : ¬ ((supportSet b).map (applyMap π)).all (fun x => decide (x < numVars b)) = true :=
+        fun h => h1 (hall.mp h)
+      exact ⟨_, by simp only [renameVariables, hemp, h1']; rfl⟩
+
+/-! ## `rename_variable` -/
+
+/-- `rename_variable(old, new)` is accepted exactly in this situation -/
+def RenameOk (b : Arr) (old new : Nat) : Prop :=
+  old < numVars b ∧ new < numVars b ∧
+    (old = new ∨ (new ∉ supportSet b ∧ ∀ i ∈ supportSet b, ¬ (min old new < i ∧ i < max old new)))
+
+theorem rename_variable_safe (b : Arr) (old new : Nat) (hb : WFo b (numVars b)) :
+    (RenameOk b old new →
+      renameVariable b old new = .ok (mapVars (fun x => if x = old then new else x) b) ∧
+      Kept b (mapVars (fun x => if x = old then new else x) b) (numVars b) (fun x => if x = old then new else x)) ∧
+    (¬ RenameOk b old new → ∃ msg, renameVariable b old new = .panic msg) := by
+  have hany : (supportSet b).any (fun i => decide (min old new < i) && decide (i < max old new)) = true ↔
+      ¬ ∀ i ∈ supportSet b, ¬ (min old new < i ∧ i < max old new) := by
+    rw [List.any_eq_true]
+    constructor
+    · rintro ⟨i, hi, h⟩ hall
+      simp only [Bool.and_eq_true, decide_eq_true_eq] at h
+      exact hall i hi h
+    · intro h
+      apply Classical.byContradiction
+      intro hno
+      apply h
+      intro i hi hbetween
+      exact hno ⟨i, hi, by simpa using hbetween⟩
+  have hcont : (supportSet b).contains new = true ↔ new ∈ supportSet b := by simp
+  constructor
+  · rintro ⟨ho, hn, hrest⟩
+    -- the final loop visits the terminals too, but their variable is `num_vars ≠ old`
+    have hmapeq : (b.map fun nd => if nd.var = old then { nd with var := new } else nd) =
+        mapVars (fun x => if x = old then new else x) b := by
+      apply Array.ext_getElem?
+      intro i
+      rw [Array.getElem?_map]
+      by_cases hi : i < 2
+      · rw [getElem?_mapVars_lt _ b i hi]
+        match i, hi with
+        | 0, _ =>
+          rw [hb.zero]; simp only [Option.map_some]
+          have : ¬ numVars b = old := by omega
+          simp [this]
+        | 1, _ =>
+          rcases Nat.lt_or_ge 1 b.size with h | h
+          · rw [hb.one (by omega)]; simp only [Option.map_some]
+            have : ¬ numVars b = old := by omega
+            simp [this]
+          · rw [Array.getElem?_eq_none (by omega)]; rfl
+      · rw [getElem?_mapVars_ge _ b i (by omega)]
+        cases b[i]? with
+        | none => rfl
+        | some nd =>
+          simp only [Option.map_some]
+          by_cases hv : nd.var = old <;> simp [hv]
+    have hlt0 := supportSet_lt hb
+    by_cases heq : old = new
+    · have hk := kept_of_retarget (numVars b) (fun x => if x = old then new else x) hb
+        (fun x hx => by have := hlt0 x hx; split <;> omega)
+        (fun x _ y _ hxy => by split <;> split <;> omega)
+      rw [setTerm_self hb] at hk
+      have : mapVars (fun x => if x = old then new else x) b = b := by
+        rw [mapVars_congr _ (fun x => x) b (fun x _ => by split <;> omega), mapVars_id]
+      refine ⟨?_, hk⟩
+      rw [this]
+      simp only [renameVariable, ho, hn, heq, not_true_eq_false, if_false, if_true]
+    · rcases hrest with h | ⟨hnew, hbetween⟩
+      · exact absurd h heq
+      · have hk := kept_of_retarget (numVars b) (fun x => if x = old then new else x) hb
+          (fun x hx => by have := hlt0 x hx; split <;> omega)
+          (fun x hx y hy hxy => by
+            have bx := hbetween x hx
+            have by' := hbetween y hy
+            have nx : x ≠ new := fun h => hnew (h ▸ hx)
+            have ny : y ≠ new := fun h => hnew (h ▸ hy)
+            split <;> split <;> omega)
+        rw [setTerm_self hb] at hk
+        refine ⟨?_, hk⟩
+        have h1 : ¬ (supportSet b).any (fun i => decide (min old new < i) && decide (i < max old new)) = true :=
+          fun h => hany.mp h hbetween
+        have h2 : ¬ (supportSet b).contains new = true := fun h => hnew (hcont.mp h)
+        simp only [renameVariable, ho, hn, heq, h1, h2, not_true_eq_false, if_false, Bool.false_eq_true]
+        rw [hmapeq]
+  · intro hnot
+    by_cases ho : old < numVars b
+    · by_cases hn : new < numVars b
+      · by_cases heq : old = new
+        · exact absurd ⟨ho, hn, Or.inl heq⟩ hnot
+        · by_cases h1 : (supportSet b).any (fun i => decide (min old new < i) && decide (i < max old new)) = true
+          · exact ⟨_, by simp only [renameVariable, ho, hn, heq, h1, not_true_eq_false, if_false, if_true] <;> rfl⟩
+          · by_cases h2 : (supportSet b).contains new = true
+            · exact ⟨_, by simp only [renameVariable, ho, hn, heq, h1, h2, not_true_eq_false, if_false, if_true, Bool.false_eq_true] <;> rfl⟩
+            · exfalso
+              apply hnot
+              refine ⟨ho, hn, Or.inr ⟨fun h => h2 (hcont.mpr h), ?_⟩⟩
+              apply Classical.byContradiction
+              intro hno
+              exact h1 (hany.mpr hno)
+      · exact ⟨_, by simp only [renameVariable, ho, hn, not_true_eq_false, not_false_eq_true, if_false, if_true] <;> rfl⟩
+    · exact ⟨_, by simp only [renameVariable, ho, not_false_eq_true, if_true] <;> rfl⟩
+
+/-! ## `transfer_from` -/
+
+/-- every support variable has a same-named variable in the target set and the name-induced map is
+    strictly increasing on the support -/
+def Transferable (tgt src : List String) (b : Arr) : Prop :=
+  (∀ x ∈ supportSet b, (nameMap tgt src x).isSome) ∧
+  (∀ x ∈ supportSet b, ∀ y ∈ supportSet b, x < y →
+    (nameMap tgt src x).getD 0 < (nameMap tgt src y).getD 0)
+
+/-- `target.transfer_from(b, source)` for a diagram valid in the source set: `Some r` (model: `ok r`)
+    exactly when `Transferable`, and then `r` is valid in the target set and denotes the same function
+    under the name correspondence; otherwise `None` (model: `err`) — never a panic. -/
+theorem transfer_some_iff (tgt src : List String) (b : Arr) (hb : WFo b (numVars b))
+    (hsrc : numVars b ≤ src.length) :
+    (Transferable tgt src b →
+      transferFrom tgt b src = .ok (mapVars (fun x => (nameMap tgt src x).getD 0) (setTerm tgt.length b)) ∧
+      Kept b (mapVars (fun x => (nameMap tgt src x).getD 0) (setTerm tgt.length b)) tgt.length
+        (fun x => (nameMap tgt src x).getD 0)) ∧
+    (¬ Transferable tgt src b → ∃ msg, transferFrom tgt b src = .err msg) := by
+  have hsz := hb.size_pos
+  have hlt0 := supportSet_lt hb
+  have hidx : ∀ x ∈ supportSet b, (nameMap tgt src x).isSome → (nameMap tgt src x).getD 0 < tgt.length := by
+    intro x _ hs
+    cases hx : nameMap tgt src x with
+    | none => rw [hx] at hs; cases hs
+    | some j =>
+      unfold nameMap at hx
+      cases hsx : src[x]? with
+      | none => rw [hsx] at hx; cases hx
+      | some nm =>
+        rw [hsx] at hx; simp only [Option.bind_some] at hx
+        obtain ⟨hj, _⟩ := List.idxOf?_eq_some_iff.mp hx
+        exact hj
+  have hchain : chainLt ((supportSet b).map fun x => (nameMap tgt src x).getD 0) = true ↔
+      ∀ x ∈ supportSet b, ∀ y ∈ supportSet b, x < y →
+        (nameMap tgt src x).getD 0 < (nameMap tgt src y).getD 0 := by
+    rw [chainLt_iff]
+    exact ⟨mono_of_sorted_map _ _ (sorted_supportSet b), sorted_map_of_mono _ _ (sorted_supportSet b)⟩
+  constructor
+  · rintro ⟨h1, h2⟩
+    have hk := kept_of_retarget tgt.length (fun x => (nameMap tgt src x).getD 0) hb
+      (fun x hx => hidx x hx (h1 x hx)) h2
+    refine ⟨?_, hk⟩
+    by_cases s1 : b.size = 1
+    · unfold transferFrom; rw [if_pos s1, mkFalse_eq_retarget _ _ hb s1]
+    · by_cases s2 : b.size = 2
+      · unfold transferFrom; rw [if_neg s1, if_pos s2, mkTrue_eq_retarget _ _ hb s2]
+      · simp only [transferFrom, s1, s2, if_false, translateSupport_ok tgt src _ h1, hchain.mpr h2]
+        rw [copyNodes_ok _ _ _ (fun nd hnd => (mem_supportSet' b _).mpr ⟨nd, hnd, rfl⟩)]
+        simp only [Bool.not_true, Bool.false_eq_true, if_false]
+        rw [transfer_array_eq tgt.length (fun x => (nameMap tgt src x).getD 0) hb (by omega)]
+  · intro hnot
+    have s1 : ¬ b.size = 1 := by
+      intro h; apply hnot
+      have : supportSet b = [] := (supportSet_eq_nil b).mpr (by omega)
+      rw [Transferable, this]; exact ⟨fun x hx => (by cases hx), fun x hx => (by cases hx)⟩
+    have s2 : ¬ b.size = 2 := by
+      intro h; apply hnot
+      have : supportSet b = [] := (supportSet_eq_nil b).mpr (by omega)
+      rw [Transferable, this]; exact ⟨fun x hx => (by cases hx), fun x hx => (by cases hx)⟩
+    by_cases h1 : ∀ x ∈ supportSet b, (nameMap tgt src x).isSome
+    · have h2 : ¬ chainLt ((supportSet b).map fun x => (nameMap tgt src x).getD 0) = true :=
+        fun h => hnot ⟨h1, hchain.mp h⟩
+      exact ⟨_, by simp only [transferFrom, s1, s2, if_false, translateSupport_ok tgt src _ h1, h2] <;> rfl⟩
+    · obtain ⟨msg, hm⟩ := translateSupport_err tgt src (supportSet b)
+        (fun x hx => by have := hlt0 x hx; omega) h1
+      exact ⟨msg, by simp only [transferFrom, s1, s2, if_false, hm]⟩
+
+/-- with distinct names in the target set the correspondence used above is the plain one:
+    `x ↦ j` iff the `j`-th target name is the name of `x` -/
+theorem transfer_name_correspondence (tgt src : List String) (htgt : tgt.Nodup) (x j : Nat) :
+    nameMap tgt src x = some j ↔ ∃ nm, src[x]? = some nm ∧ tgt[j]? = some nm :=
+  nameMap_eq_some_iff tgt src htgt x j
+
+/-! ## Non-vacuity: the hypotheses are satisfiable on concrete, non-trivial values -/
+
+/-- `x0 ∧ x2` over 3 variables (skips level 1) -/
+def ex02 : Arr := #[⟨3, 0, 0⟩, ⟨3, 1, 1⟩, ⟨2, 0, 1⟩, ⟨0, 0, 2⟩]
+theorem ex02_wf : WFo ex02 (numVars ex02) := wfoB_sound (by decide)
+
+/-- renaming `x2 ↦ x1` is admissible and really renames -/
+example : renameVariables ex02 (varMapOfList [(2, 1), (3, 0)]) =
+    .ok #[⟨3, 0, 0⟩, ⟨3, 1, 1⟩, ⟨1, 0, 1⟩, ⟨0, 0, 2⟩] := rfl
+example : Admissible ex02 (applyMap (varMapOfList [(2, 1), (3, 0)])) := by
+  have : supportSet ex02 = [0, 2] := by decide
+  unfold Admissible; rw [this]; decide
+/-- swapping the two support variables is refused -/
+example : ∃ msg, renameVariables ex02 (varMapOfList [(0, 2), (2, 0)]) = .panic msg := ⟨_, rfl⟩
+example : RenameOk ex02 2 1 := by
+  have : supportSet ex02 = [0, 2] := by decide
+  unfold RenameOk; rw [this]; decide
+example : ∃ msg, renameVariable ex02 0 2 = .panic msg := ⟨_, rfl⟩
+example : setNumVars ex02 5 = .ok #[⟨5, 0, 0⟩, ⟨5, 1, 1⟩, ⟨2, 0, 1⟩, ⟨0, 0, 2⟩] := rfl
+example : ∃ msg, setNumVars ex02 2 = .panic msg := ⟨_, rfl⟩
+/-- transfer into a set that has the two names in the same order (and an extra one in front) -/
+example : transferFrom ["q", "a", "c"] ex02 ["a", "b", "c"] =
+    .ok #[⟨3, 0, 0⟩, ⟨3, 1, 1⟩, ⟨2, 0, 1⟩, ⟨1, 0, 2⟩] := rfl
+example : Transferable ["q", "a", "c"] ["a", "b", "c"] ex02 := by
+  have : supportSet ex02 = [0, 2] := by decide
+  unfold Transferable; rw [this]; decide
+/-- … refused when the order is reversed or a name is missing -/
+example : ∃ msg, transferFrom ["c", "a"] ex02 ["a", "b", "c"] = .err msg := ⟨_, rfl⟩
+example : ∃ msg, transferFrom ["a", "b"] ex02 ["a", "b", "c"] = .err msg := ⟨_, rfl⟩
+
 end B.Props.C17
